@@ -126,6 +126,8 @@ def main():
     ap.add_argument('--tier', default=os.environ.get('VERIF_TIER', 'quick'))
     ap.add_argument('--jobs', type=int, default=int(os.environ.get('VP_JOBS', '0')) or (os.cpu_count() or 4))
     ap.add_argument('--only')
+    ap.add_argument('--every', type=int, default=0)
+    ap.add_argument('--offset', type=int, default=0)
     ap.add_argument('--list', action='store_true')
     ap.add_argument('--replay')
     ap.add_argument('--no-evidence', action='store_true')
@@ -153,7 +155,11 @@ def main():
         insts = conf.instances(tier)
     else:
         mod = importlib.import_module('harness.' + pid.lower())
-        insts = mod.instances(tier)
+        # 'full' = the complete cross product a module defines for its deep tier; 'thorough' = the registered deep tier: the same
+        # list thinned deterministically (every THOROUGH_STRIDE-th instance) so that the command finishes in about 20 minutes
+        insts = mod.instances('thorough' if tier == 'full' else tier)
+        if tier == 'thorough':
+            insts = insts[::getattr(mod, 'THOROUGH_STRIDE', 1)]
         for i in insts:
             i.setdefault('module', 'harness.' + pid.lower())
         if not args.only and not args.no_conformance:
@@ -162,6 +168,8 @@ def main():
             insts += [i for i in conf.instances('quick') if any(i['name'].endswith(m) for m in mini)]   # full set: --property CONF
     if args.only:
         insts = [i for i in insts if args.only in i['name']]
+    if args.every:
+        insts = insts[args.offset::args.every]      # measurement aid (sizing the thorough tier); no evidence is written
     if args.list:
         for i in insts:
             print(i['name'], i.get('timeout'))
@@ -210,7 +218,7 @@ def main():
         spec = {'name': i['name'], 'module': i['module'], 'factory': i['factory'], 'params': i.get('params', {}),
                 'timeout': i.get('timeout', 120) * args.scale, 'path_timeout': i.get('path_timeout', 60) * args.scale,
                 'seed': seed, 'native_limit': i.get('native_limit', 48), 'active_regions': active,
-                'twin': bool(i.get('twin', tier == 'thorough' and i.get('twin_ok', True))),
+                'twin': bool(i.get('twin', tier in ('thorough', 'full') and i.get('twin_ok', True))),
                 'symbolic': i.get('symbolic', True)}
         r = run_worker(spec, hard_timeout=spec['timeout'] * 2.0 + 120)
         if r.get('status') == 'vacuous' and any(v in active for v in i.get('vacuous_if', ())):
@@ -296,7 +304,7 @@ def main():
         ] + [f'known-finding region excluded while its witness still fails: {a}' for a in active],
         'wall_s': round(time.time() - t0, 2), 'violations': len(violations),
     }
-    if not args.no_evidence and not args.only:
+    if not args.no_evidence and not args.only and not args.every:
         os.makedirs(os.path.join(HERE, 'evidence'), exist_ok=True)
         with open(os.path.join(HERE, 'evidence', pid + '.json'), 'w') as f:
             json.dump(ev, f, indent=1, default=repr)
